@@ -205,6 +205,20 @@ theorem fma_exact (a b c r : Nat) (ha : Finite a) (hb : Finite b) (hc : Finite c
     (h : toReal a * toReal b + toReal c = toReal r) : toReal (fma a b c) = toReal r :=
   le_antisymm (fma_le a b c r ha hb hc hr (by rw [h]; exact hrfit) hrfit h.le) (fma_ge a b c r ha hb hc hr (by rw [h]; exact hrfit) hrfit h.ge)
 
+theorem abs_wf (a : Nat) (ha : WF a) : WF (F64.abs a) := by
+  unfold WF at *; unfold F64.abs; simp only [consts.2.2.2.2.2.2.2.1]; split <;> omega
+
+theorem fma_wf (a b c : Nat) : WF (F64.fma a b c) := by
+  unfold F64.fma
+  repeat' split
+  all_goals first | exact qnan_wf | exact infB_wf _ | exact signBit_wf _ | exact roundPack_wf _ _ _
+
+theorem div_wf (a b : Nat) : WF (F64.div a b) := by
+  unfold F64.div
+  repeat' split
+  all_goals first | exact qnan_wf | exact infB_wf _ | exact signBit_wf _ | exact roundPack_wf _ _ _
+
+
 end F64
 
 /-! GENERATED from Proofs/F32MonoOps.lean by run/gen64proofs.py (binary64 instance of the same proof). -/
